@@ -449,7 +449,17 @@ var reLockSuffix = regexp.MustCompile(`(@b[0-9]+|#[0-9]+)+$`)
 
 // lockName: the part of an obligation name that survives harmless edits (block numbers of return sites and ordinals of
 // repeated call sites are dropped).
-func lockName(n string) string { return reLockSuffix.ReplaceAllString(n, "") }
+func lockName(n string) string {
+	n = reLockSuffix.ReplaceAllString(n, "")
+	// obligations of a proof view are named <name>@b<N>@<view>: the block number in front of the view goes as well
+	if m := reViewSuffix.FindStringSubmatch(n); m != nil && !reBlockOnly.MatchString(m[2]) {
+		return reLockSuffix.ReplaceAllString(m[1], "") + "@" + m[2]
+	}
+	return n
+}
+
+var reViewSuffix = regexp.MustCompile(`^(.*)@([a-z][a-z0-9]*)$`)
+var reBlockOnly = regexp.MustCompile(`^b[0-9]+$`)
 
 func uniqStrings(xs []string) []string {
 	var out []string
